@@ -704,7 +704,11 @@ def run(ctx: Context) -> None:
     for c in calls_in(so.node):
         if c is trans[0] or not isinstance(c.func, ast.Attribute):
             continue
-        recv = ast.unparse(c.func.value)
+        rv = c.func.value
+        if isinstance(rv, ast.Name) and rv.id != "self":  # a local bound to a component: `sb = self.app.state_backend`
+            vals = _reaching_values(so, rv.id)
+            rv = vals[0] if len(vals) == 1 else rv
+        recv = ast.unparse(rv)
         if not (recv == "self" or recv.startswith("self.app.")) or ".logger" in recv or recv.endswith("logger"):
             continue
         if any(x is c for x in ast.walk(trans[0])):
